@@ -162,8 +162,9 @@ hs('sized16_le36', 36, 'Set(16)', tiers=('thorough',), timeout=7200)
 
 # ----------------------------------------------------------------------------------------------- C10: garbage collector
 def gcs(name, ts, final, qcap=2, **kw):
-    kw.setdefault('opts', {'loop:keep_reclaim': '3'})
+    kw.setdefault('opts', {'loop:keep_reclaim': '3'}); kw.setdefault('tiers', TH); kw.setdefault('timeout', 7200)
     S('gc_' + name, 'gc/gc.cpp', {'assert': 'C10'}, defs=['VF_QCAP=%d' % qcap] + ['VF_T%d=%s' % (i, t) for i, t in enumerate(ts)] + ['VF_FINAL=' + final], **kw)
+S('gc_seq_stop', 'gc/gc_seq.cpp', {'assert': 'C10'}, models=['sc'], bound=8)
 # stop() issued while a region opened before the retirement is still open
 gcs('stop_with_open_region', ['REGION_OPEN();SIGNAL(0);REGION_CLOSE()', 'AWAIT(0);RETIRE(0);STOP_MARK();JOIN();vf_check(invoked[0]==1, 1)', 'COLLECTOR()'],
     'vf_check(invoked[0] <= 1, 2); if (invoked[0]) vf_check(open_at_invoke[0] == 0, 3)')
